@@ -55,6 +55,46 @@ def sec(o, a, b):
     return o[o.index('=====' + a) + len(a) + 6:o.index('=====' + b)]
 
 
+STD_BASE = {'second': {'s': 1}, 'metre': {'m': 1}, 'kilogram': {'kg': 1}, 'ampere': {'A': 1}, 'kelvin': {'K': 1}, 'mole': {'mol': 1}, 'candela': {'cd': 1}, 'dimensionless': {},
+            'newton': {'kg': 1, 'm': 1, 's': -2}, 'volt': {'kg': 1, 'm': 2, 's': -3, 'A': -1}, 'litre': {'m': 3}, 'joule': {'kg': 1, 'm': 2, 's': -2}, 'hertz': {'s': -1}, 'gram': {'kg': 1}}
+
+
+def connected_units_case(rng):
+    """two connected variables whose units are built from compound units, with repeated references; returns (text, same
+    base units?) — the exponent vectors are computed with exact fractions"""
+    from fractions import Fraction as Fr
+    n = rng.randint(2, 5)
+    defs, vecs = [], []
+    for i in range(n):
+        if rng.random() < 0.15:
+            defs.append([]); vecs.append({'b%d' % i: Fr(1)}); continue
+        kids = []
+        for _ in range(rng.randint(1, 3)):
+            ref = ('u%d' % rng.randrange(i)) if (i > 0 and rng.random() < 0.6) else rng.choice(sorted(STD_BASE))
+            kids.append((ref, rng.choice(['1', '1', '1', '2', '-1', '3', '0.5', '-2']), rng.choice(['', '', 'milli', 'kilo', 'centi']), rng.choice(['', '', '10', '0.1'])))
+        if rng.random() < 0.5 and kids:
+            kids.append((kids[0][0], rng.choice(['1', '1', '2', '-1']), '', ''))       # the same units referenced again
+        v = {}
+        for ref, e, pf, mu in kids:
+            src = vecs[int(ref[1:])] if ref.startswith('u') and ref[1:].isdigit() else {k: Fr(x) for k, x in STD_BASE[ref].items()}
+            for k, x in src.items():
+                v[k] = v.get(k, 0) + Fr(e) * x
+        defs.append(kids); vecs.append({k: x for k, x in v.items() if x != 0})
+    a = rng.randrange(n)
+    same = rng.random() < 0.5
+    cands = [j for j in range(n) if (vecs[j] == vecs[a]) == same and j != a]
+    b = rng.choice(cands) if cands else a
+    text = '<?xml version="1.0" encoding="UTF-8"?>\n<model xmlns="http://www.cellml.org/cellml/2.0#" name="m">\n'
+    for i, kids in enumerate(defs):
+        if not kids:
+            text += '  <units name="u%d"/>\n' % i
+        else:
+            text += '  <units name="u%d">%s</units>\n' % (i, ''.join('<unit units="%s"%s%s%s/>' % (r, ' exponent="%s"' % e if e != '1' else '', ' prefix="%s"' % pf if pf else '', ' multiplier="%s"' % mu if mu else '') for r, e, pf, mu in kids))
+    text += ('  <component name="c1"><variable name="v" units="u%d" interface="public"/></component>\n  <component name="c2"><variable name="w" units="u%d" interface="public"/></component>\n'
+             '  <connection component_1="c1" component_2="c2"><map_variables variable_1="v" variable_2="w"/></connection>\n</model>\n') % (a, b)
+    return text, vecs[a] == vecs[b]
+
+
 def run(chk, replay=None):
     lib = build_lib()
     hx = build_hx('hx_roundtrip', lib)
@@ -161,6 +201,20 @@ def run(chk, replay=None):
                     oracle.append(('the fault %s is reported, but under %s instead of one of %s' % (name, sorted({i[1] for i in errs}), want), faulty, name, want))
                 else:
                     stats['faults_rejected'] += 1
+        # connected variables with compound units (repeated references, fractional exponents): compatible iff the same base units
+        for k in range(60 if chk.tier == 'quick' else 600):
+            if replay:
+                break
+            text, same = connected_units_case(rng)
+            res = validate(text)
+            stats['connected_units'] = stats.get('connected_units', 0) + 1
+            if res is None:
+                oracle.append(('the library crashed on two connected variables with compound units', text, 'connected-units', [])); continue
+            errs = [i for i in res[1] if i[0] == 0]
+            if same and errs:
+                oracle.append(('two connected variables with the same base units are rejected: %s' % errs[0][2][:200], text, 'connected-units-valid', [])); continue
+            if not same and not [i for i in errs if i[1].startswith('MAP_VARIABLES')]:
+                oracle.append(('two connected variables with different base units are accepted', text, 'connected-units-incompatible', ['MAP_VARIABLES_ELEMENT'])); continue
         # correspondence of the two modelled checks
         lines, expect = [], []
         for k in range(30 if chk.tier == 'quick' else 200):
